@@ -1,7 +1,5 @@
 //! Two-way string matching on steroids.
 
-use std::cmp::max;
-
 use memchr_rs::memchr;
 
 const SIMD_THRESHOLD: usize = 16;
@@ -67,29 +65,29 @@ pub fn find(haystack: &str, needle: &str) -> Option<usize> {
         return None;
     }
 
-    let (crit, period) = crit_period(n);
+    // `crit` only selects which needle byte is used as the memchr anchor. Every
+    // occurrence of that byte is a candidate alignment and must be examined in
+    // order: skipping ahead by the period is only sound inside the full Two-Way
+    // matching loop, which this pre-filter does not implement.
+    let (crit, _period) = crit_period(n);
     let anchor = n[crit];
 
     let mut offset = 0;
 
-    while offset + nlen <= hlen {
+    while offset < hlen {
         let index = memchr(anchor, h, offset);
         if index >= hlen {
             return None;
         }
 
-        if index < crit {
-            offset = index + 1;
-            continue;
+        if index >= crit {
+            let start = index - crit;
+            if start + nlen <= hlen && &h[start..start + nlen] == n {
+                return Some(start);
+            }
         }
 
-        let start = index - crit;
-        if start + nlen <= hlen && &h[start..start + nlen] == n {
-            return Some(start);
-        }
-
-        let shift = max(1, period);
-        offset = start.saturating_add(shift);
+        offset = index + 1;
     }
 
     None
